@@ -159,6 +159,25 @@ Local Open Scope R_scope.
 '''
 
 
+def _extend_proxy(T):
+    """Qube.from_scalars (used by eval) builds its value array with np.array([...]); in the tracer
+    process a list holding Sym values / object arrays must become an object array instead of being
+    coerced to float.  Added to the proxy of THIS process only (tracer.py itself is not edited)."""
+    def _array(obj, dtype=None, *args, **kw):
+        if isinstance(obj, (list, tuple)) and obj and any(T._is_symbolic(e) for e in obj):
+            parts = []
+            for e in obj:
+                if isinstance(e, T.Sym):
+                    a = np.empty((), dtype=object)
+                    a[()] = e
+                else:
+                    a = np.asarray(e, dtype=object)
+                parts.append(a)
+            return np.stack(parts)
+        return np.array(obj, dtype, *args, **kw)
+    T.NpProxy.array = staticmethod(_array)
+
+
 def run_float(name, fn, Pm):
     io = FloatIO(name)
     fn(io, Pm)
@@ -176,6 +195,7 @@ def main(argv):
         os.makedirs(d, exist_ok=True)
     only = set(argv[1:])
     Pm = T.install()
+    _extend_proxy(T)
     manifest = {'kernels': [], 'errors': []}
     for name, fn, oblig in KERNELS:
         if only and name not in only:
